@@ -367,6 +367,8 @@ def read_import(file, *targets):
   sys.path.append('.')
   results = []
   globals = {}
+  import importlib
+  importlib.invalidate_caches()
   try:
     if _dir: os.chdir(_dir)
     if len(targets):
@@ -395,6 +397,7 @@ def read_import(file, *targets):
   finally:
     if _dir: os.chdir(curdir)
     sys.path.pop()
+    sys.modules.pop(file, None) # a later read should see the file, not the cache
   if not len(results): return None
   return results[-1] if (len(results) == 1) else results
 
